@@ -188,7 +188,8 @@ def oracle(ck, n, thorough=False):
         ck.case(key=(cs['circuit'][:80], cs['dseed'], cs['sseed'], cs['polind'], cs['shift'], cs['scale']),
                 sample={k: v for k, v in cs.items() if k != 'circuit'},
                 tag=[f"polind:{cs['polind']}", f"shift:{cs['shift']}", f"scale:{cs['scale']}", f"strip:{cs['strip']}", f"cuda:{cs['cuda']}",
-                     'port-window-reuse' if cs.get('ports') else ('skipped-rigid' if (obs and 'skipped' in obs) else 'rigid-checked')])
+                     'port-window-reuse' if cs.get('ports') else ('skipped-rigid' if (obs and 'skipped' in obs) else 'rigid-checked'),
+                     common.allcirc_hyp(ck, pickle.loads(base64.b64decode(cs['circuit'])), [cs['strip']], 'C04')])   # hypotheses of wave_timing_all_circuits
         if not ok:
             ck.violation('wave-' + (obs.get('clause', 'run') if obs else 'run'), 'WaveSim violates the timing clause', cs, obs, exp)
 
